@@ -180,6 +180,62 @@ def _worker(payload):
     return asyncio.run(main())
 
 
+def _slow_worker(payload):
+    """
+    A peer that stops reading while answers pile up for it, then hangs up; a well-behaved second connection goes on publishing.
+    Three ways to make answers pile up: REQs the handler itself answers with EOSE (invalid filters), REQs answered by query
+    tasks (stored events), live pushes by notify tasks.  The same schedule with a reading peer is the reference.
+    """
+    backend, kind, n = payload
+    from .. import relaydrv, storedrv
+
+    uni = universe()
+    sid_map = {"w1": "well1", "live": "live0", "p1": "probe1"}
+    sid_map.update({"b%d" % k: "burst%d" % k for k in range(n)})
+
+    def schedule(stalled):
+        s = [("open", 0), ("open", 1), ("msg", 1, {"m": "REQ", "sid": "w1", "fs": [{"kinds": [1]}]}), ("idle",),
+             ("msg", 1, {"m": "EVENT", "e": "p0"}), ("idle",),
+             ("msg", 0, {"m": "REQ", "sid": "live", "fs": [{"kinds": [1]}]}), ("idle",)]
+        if stalled:
+            s.append(("stall", 0))
+        if kind == "handler-eose":
+            s += [("msg", 0, {"m": "REQ", "sid": "b%d" % k, "fs": [None]}) for k in range(n)]
+        elif kind == "query":
+            s += [("msg", 0, {"m": "REQ", "sid": "b%d" % k, "fs": [{"kinds": [1]}]}) for k in range(n)]
+        else:
+            s += [("msg", 1, {"m": "EVENT", "e": "p1"}), ("idle",)]
+        s += [("idle",), ("disc", 0), ("idle",),
+              ("msg", 1, {"m": "EVENT", "e": "p2"}), ("idle",), ("msg", 1, {"m": "EVENT", "e": "j0"}), ("idle",),
+              ("msg", 1, {"m": "REQ", "sid": "p1", "fs": [{"tags": {"t": ["b"]}}]}), ("idle",)]
+        return s
+
+    async def run(stalled):
+        with C.Scratch() as d:
+            st = await storedrv.open_storage(backend, d, sync_writer=False)
+            try:
+                return await relaydrv.run_connections(st, uni, 2, schedule(stalled), sid_map, idle_timeout=4.0)
+            finally:
+                await storedrv.close_storage(st)
+
+    async def main():
+        base = transcript((await run(False))[0], 1)
+        log, info, errs = await run(True)
+        oks = [ln["f"] for ln in log if ln["a"] == "Send" and ln["c"] == 1 and ln["f"]["t"] == "OK"]
+        eose = [ln["f"] for ln in log if ln["a"] == "Send" and ln["c"] == 1 and ln["f"]["t"] == "EOSE" and ln["f"].get("sid") == "p1"]
+        lines = [{"a": "Junk", "c": 0, "out": "closed", "_frames": [], "_junk": "peer stops reading (%s x %d), then hangs up" % (kind, n)},
+                 {"a": "Probe", "c": 1, "answered": len(oks) >= 3 and all(f["ok"] for f in oks[-2:]), "_what": "EVENT x2 after the hang-up"},
+                 {"a": "Probe", "c": 1, "answered": bool(eose), "_what": "REQ after the hang-up"}]
+        mine = transcript(log, 1)
+        lines.append({"a": "Other", "same": mine == base, "_got": mine[-8:], "_expected": base[-8:]})
+        end = [ln for ln in log if ln["a"] == "End"]
+        lines.append({"a": "End", "tasks": end[0]["tasks_left"] if end else 99, "handlers_ok": all(v["result"] == "returned" for v in info.values()),
+                      "regs_empty": bool(end) and not any(end[0]["reg"].values()), "_errs": errs})
+        return [lines]
+
+    return asyncio.run(main())
+
+
 def run(prop, tier, seed, **kw):
     out = Outcome("C19", tier, seed, "exploration")
     rnd = random.Random(seed)
@@ -189,6 +245,12 @@ def run(prop, tier, seed, **kw):
     results = pool.map_in_workers("harness.checks.c19", "_worker", payloads, config={"subscription_limit": 8})
     traces = [tr for res in results for tr in res]
     backs = [p[0] for p in payloads for _ in range(len(p[1]))]
+    # slow readers (with a small max_limit, so that anything sized by it is small too)
+    slow = [(b, kind, n) for b in ("sql", "lmdb") for kind in ("handler-eose", "query", "notify") for n in ((5, 40) if tier == "quick" else (2, 5, 40, 400))
+            if not (kind == "notify" and n != 5)]
+    for p, res in zip(slow, pool.map_in_workers("harness.checks.c19", "_slow_worker", slow, config={"subscription_limit": 500, "max_limit": 3})):
+        traces += res
+        backs += [p[0]] * len(res)
     verdicts, vstats = tracedata.validate("Junk_Trace", {"TD_JunkConns": {0, 1}}, traces, batch=200)
     out.add_model(vstats)
     outcomes = {}
